@@ -331,6 +331,9 @@ pub fn special_ext_tasks() -> Vec<ExtTask> {
         mk("spec: forall X (out(X) <-> in(X) and X != a and X != a0).", true, "out(X) :- in(X), X != a, X != a0. a :- in(a), not in(a0).", "input: in/1. output: out/1. output: a/0.", ""),
         mk("spec: forall X (out(X) <-> in(X) and X != a and X != a0). spec: a <-> in(a) and not in(a0).", true, "out(X) :- in(X), X != a, X != a0. a :- in(a), not in(a0).", "input: in/1. output: out/1. output: a/0.", ""),
         mk("spec: forall X (out(X) <-> in(X) and X != b and X != b_). spec: b <-> in(b_).", true, "out(X) :- in(X), X != b_, X != b. b :- in(b_).", "input: in/1. output: out/1. output: b/0.", ""),
+        // quantifiers directly over chained comparisons, in every kind of user-written formula
+        mk("spec: forall X (out(X) <-> in(X)). assumption: exists N$i (0 <= N$i <= n).", true, "out(X) :- in(X).", "input: in/1. output: out/1. input: n -> integer.", ""),
+        mk("out(X) :- in(X), X <= n.", false, "out(X) :- in(X), not X > n.", "input: in/1. output: out/1. input: n -> integer. assumption: exists N$i (0 <= N$i <= n). assumption: not forall N$i M$i (0 < N$i < M$i < n).", "lemma: exists N$i (0 <= N$i <= n). lemma: forall X (out(X) -> exists N$i (N$i = X <= n))."),
         // one symbol at several arities with different visibility (private/public/input), clashing private copies on both sides
         mk("q(X) :- in(X). q(X,X) :- q(X).", false, "q(X) :- in(X). q(X,X) :- q(X).", "input: in/1. output: q/2.", ""),
         mk("q(X) :- in(X), X > 0. q(X,X) :- q(X).", false, "q(X) :- in(X). q(X,X) :- q(X), X > 0.", "input: in/1. output: q/2.", ""),
@@ -410,6 +413,8 @@ pub fn gen_specs() -> Vec<String> {
     let bodies = [
         "out(X) <-> in(X)", "out(X) -> in(X)", "in(X) -> out(X)", "out(X) <-> in(X) and X > 0", "out(X) or not in(X)", "not (out(X) and not in(X))",
         "out(X) <-> in(X) and X != a", "in(X) and X > 1 -> out(X)", "out(X) <- in(X) and not in(X+1)",
+        // a quantifier directly over a chained comparison (one atomic formula, rendered as a conjunction)
+        "0 <= X <= 2",
     ];
     let mut v = vec![];
     for pre in ["forall X", "exists X"] {
